@@ -125,6 +125,28 @@ def _entries(conv, task, fam, merge, s, acc):
                 raise AssertionError("config target label %s != object label %s" % (ec.target_labels[0], got))
             return ec.target_labels[0]
         run("config.target_labels", viaconfig)
+
+        def viaframeconfigs():
+            # the frame-level configurations resolve their own target lists with the evaluator's settings (merge flag included)
+            from perception_eval.evaluation.result.perception_frame_config import CriticalObjectFilterConfig, PerceptionPassFailConfig
+            ec = _config_target_labels(task, fam, merge, s)
+            kw = dict(max_x_position_list=[10.0], max_y_position_list=[10.0]) if task in ("detection", "tracking", "fp_validation") else {}
+            a = CriticalObjectFilterConfig(ec, [s], **kw).target_labels
+            b = PerceptionPassFailConfig(ec, [s]).target_labels
+            if len(a) != 1 or len(b) != 1 or a[0] is not b[0]:
+                raise AssertionError("frame configs disagree: %s / %s" % (a, b))
+            return a[0]
+        run("frame_config.target_labels", viaframeconfigs)
+    # a counting converter (what configurations build) that meets the name first in another letter case keeps converting it
+    def counting_sequence():
+        cc = LabelConverter(task, merge, fam, True)
+        first = cc.convert_label(s.upper()).label
+        again = cc.convert_label(s.lower()).label
+        third = cc.convert_name(s)
+        if not (first is again is third):
+            raise AssertionError("%s then %s then %s" % (first, again, third))
+        return again
+    run("counting:upper-then-lower", counting_sequence)
     return out
 
 
